@@ -66,6 +66,9 @@ PagesOf(g) == (g.a \div PS)..((g.a + g.sz - 1) \div PS)
 \* crosses a last-level table boundary (pages off+2 .. off+7); below the offset: low memory and the
 \* last pages before the offset
 InCands(off, sizes) == {[a |-> PS * p + o, sz |-> z] : p \in ((off \div PS) + 2)..((off \div PS) + 7), o \in {0, 2}, z \in sizes}
+\* more start offsets inside the page (first unit after the boundary, last unit of the page) and empty sections
+EdgeCands(off) == {[a |-> PS * p + o, sz |-> z] : p \in {(off \div PS) + 2, (off \div PS) + 5}, o \in {1, 3}, z \in {1, 3, 4, 5, 8}}
+                  \cup {[a |-> PS * ((off \div PS) + 2) + o, sz |-> 0] : o \in {0, 2}}
 \* sections starting exactly at the offset (and one page above it)
 AtCands(off) == {[a |-> off, sz |-> z] : z \in {1, 4, 5}} \cup {[a |-> off + PS + 2, sz |-> 1]}
 BelowCands(off) == IF off = 0 THEN {}
@@ -75,18 +78,21 @@ Configs(fam) ==
   CASE fam = "one" ->
          UNION {{[off |-> off, secs |-> <<Sec(g.a, g.sz, fl)>>, hist |-> r] :
                    fl \in 0..7, r \in OneRsv,
-                   g \in InCands(KOff, {1, 3, 4, 5, 8}) \cup BelowCands(KOff) \cup InCands(0, {1, 4, 5}) \cup AtCands(off)} :
+                   g \in InCands(KOff, {1, 3, 4, 5, 8}) \cup BelowCands(KOff) \cup InCands(0, {1, 4, 5}) \cup AtCands(off) \cup EdgeCands(KOff)} :
                 off \in {0, KOff}}
     [] fam = "rsv" ->
          \* 0..3 reserved pages with every boot permission combination on the lowest one, and every boot
          \* history of up to HistLen requests that mixes successful and refused (oversized) requests
+         {[off |-> KOff, secs |-> <<>>, hist |-> r] : r \in {<<>>, <<3>>, <<3, -2>>}}                \* no section at all
+         \cup {[off |-> KOff, secs |-> <<Sec(KOff + 8, 0, 3), Sec(KOff + 8, 5, 2), Sec(KOff + 18, 0, 7)>>, hist |-> <<3>>]}  \* empty sections around a real one
+         \cup
          {[off |-> KOff, secs |-> <<Sec(KOff + 8, 5, 2)>>, hist |-> r] :
             r \in {<<>>} \cup {<<c>> : c \in 0..7} \cup {<<1, c>> : c \in 0..7} \cup {<<3, 6, c>> : c \in 0..7}
                   \cup UNION {[1..k -> {3, 5, -1, -2, -3, -4, -5}] : k \in 1..HistLen}}
     [] fam = "mini" ->
          \* smallest scope in which every design mutant shows (used by the MCKernelPDTBug_* configurations)
          {[off |-> KOff, secs |-> q, hist |-> r] :
-            q \in {<<Sec(KOff + 8, 4, 2)>>, <<Sec(KOff + 10, 5, 6)>>, <<Sec(20, 4, 2)>>}, r \in {<<>>, <<3>>, <<3, -2>>}}
+            q \in {<<Sec(KOff + 8, 4, 2)>>, <<Sec(KOff + 10, 5, 6)>>, <<Sec(20, 4, 2)>>, <<Sec(KOff + 10, 0, 2)>>}, r \in {<<>>, <<3>>, <<3, -2>>}}
     [] fam = "two" ->
          {[off |-> KOff, secs |-> <<Sec(g[1].a, g[1].sz, f1), Sec(g[2].a, g[2].sz, f2)>>, hist |-> <<3>>] :
             f1 \in TwoFlags, f2 \in TwoFlags,
@@ -152,7 +158,8 @@ MapPages(pt, page, last, frame, e) ==
 MapSection ==
   /\ pc = "sec" /\ i <= Len(cfg.secs)
   /\ LET g == cfg.secs[i]
-         inRange == IF Bug = "NoRangeTest" THEN TRUE ELSE g.a >= cfg.off
+         \* multiboot.VisitElfSections does not report empty sections
+         inRange == (g.sz # 0 \/ Bug = "ZeroSizeVisited") /\ (IF Bug = "NoRangeTest" THEN TRUE ELSE g.a >= cfg.off)
          e == Ent(0, 0, IF Bug = "RWAlways" THEN 1 ELSE Bit(g.fl, 0),
                         IF Bug = "UserBit" THEN 1 ELSE 0,
                         IF Bug = "NXDropped" THEN 0 ELSE 1 - Bit(g.fl, 2))
